@@ -709,6 +709,8 @@ macro_rules! masks {
     ($V:ident, $ty:expr, $sub:expr, $cfg:expr, $idx:expr, $h:expr, $va:ident, $vb:ident, $a:ident, $b:ident, $inp:expr; $( $m:ident $ms:ident $op:tt ),+) => {$(
         judge::<bool>($sub, $cfg, $idx, concat!(stringify!($V), "::", stringify!($m)), $ty, $h, guarded(|| $va.$m(&$vb)).map(|v| v.to_vec()), Some((0..$a.len()).map(|i| $a[i] $op $b[i]).collect()), $inp);
         judge::<bool>($sub, $cfg, $idx, concat!(stringify!($V), "::", stringify!($ms)), $ty, $h, guarded(|| $va.$ms($vb)).map(|v| v.to_vec()), Some((0..$a.len()).map(|i| $a[i] $op $b[i]).collect()), $inp);
+        // both operands the very same object (`v.cmpne(&v)`, the lane-wise `x != x` NaN test): still per element
+        judge::<bool>($sub, $cfg, $idx, concat!(stringify!($V), "::", stringify!($m)), $ty, $h ^ 0x5e1f, guarded(|| $va.$m(&$va)).map(|v| v.to_vec()), Some((0..$a.len()).map(|i| $a[i] $op $a[i]).collect()), $inp);
     )+};
 }
 
@@ -1337,6 +1339,16 @@ fn main() {
                 intred_kind!($V $dot, i32, "i32", s, cfg, i, a.clone(), b.clone());
                 let t = gen_truth(&mut rng, $n);
                 boolred_kind!($V, bool, "bool", s, cfg, i, t.clone(), |x| *x);
+                {
+                    // the deprecated chained `!=` of a bool vector: a left fold, i.e. the parity of the true lanes
+                    let vt: $V<bool> = VecX::from_fn(|k| t[k]);
+                    let mut hh = H64::new();
+                    hash_els(&mut hh, &t);
+                    let inp = || format!("a={:?}", t);
+                    #[allow(deprecated)]
+                    let g = guarded(|| vt.reduce_ne()).map(|v| vec![v]);
+                    judge::<bool>(s, cfg, i, concat!(stringify!($V), "::reduce_ne"), "bool", hh.get(), g, Some(vec![t.iter().fold(false, |x, y| x != *y)]), &inp);
+                }
                 let ti: Vec<i32> = t.iter().map(|x| if *x { gen_i32_one(&mut rng) | 1 } else { 0 }).collect();
                 boolred_kind!($V, i32, "i32", s, cfg, i, ti.clone(), |x| *x != 0);
                 when!($size small {
